@@ -121,7 +121,7 @@ class XPathArray(XPathFunction):
 
     def items(self, context: ta.ContextType = None) -> list[ta.ValueType]:
         if self._array is not None:
-            return self._array
+            return self._array.copy()  # arrays are immutable values: don't expose the members list
         return self._evaluate(context)
 
     def iter_flatten(self, context: ta.ContextType = None) -> Iterator[ta.ItemType]:
